@@ -199,7 +199,7 @@ def run(chk):
     for seq in ([1, True], [True, 1], [0, False, 0.0], [False, 0], [1.0, 1, True], ["s", 1, 1, True], [(1, True), (True, 1)]):
         def t(it, seq=seq):
             from .common import ast_from_source
-            state = SObj(ClassVal("TracingState", builtin=True), {"unused_undroppable_objs": {}, "node": "NODE", "globals": None})
+            state = it.call(it.lookup_global(e.module("guppylang_internals.tracing.state"), "TracingState"), [SObj(ClassVal("CompilerContext", builtin=True), {"checked_globals": None}), None, "NODE"], {})   # the real dataclass: fields added later get their defaults
             e.models["guppylang_internals.tracing.state:get_tracing_state"] = lambda it2, a, k: state
             frame = SObj(ClassVal("frame", builtin=True), {"f_code": SObj(ClassVal("code", builtin=True), {"co_filename": "user.py"}), "f_lineno": 7})
             e.models["guppylang_internals.tracing.util:get_calling_frame"] = lambda it2, a, k: frame
